@@ -6,6 +6,9 @@ Programs == CASE Family = "nest" -> NestFamily(Depth, {2})
               [] Family = "ctrl" -> CtrlFamily({2, 5})
               [] Family = "nd" -> NdFamily({2, 3})
               [] Family = "ho" -> HoFamily(Depth, {2, 3})
+              [] Family = "ext1" -> Ext1Family(Depth, {2})
+              [] Family = "ext2" -> Ext2Family(Depth, {2})
+              [] Family = "ckpt" -> CkptFamily({2, 3})
               [] Family = "threads2" -> ThreadFamily2
               [] Family = "threads2small" -> ThreadFamily2Small
               [] Family = "threads3" -> ThreadFamily3
